@@ -5,5 +5,6 @@ cd "$(dirname "$0")/.."
 export GOFLAGS=-mod=mod GOPROXY=off GOSUMDB=off GOTOOLCHAIN=local
 mkdir -p work evidence coq/theories/Gen
 if [ -d tools/gotocoq ]; then (cd tools/gotocoq && go run . -repo ${VERIF_REPO:-/repo} -out ../../coq/theories/Gen); fi
+tools/gen_coqproject.sh
 (cd coq && coq_makefile -f _CoqProject -o Makefile && timeout 3000 make -k -j16) || echo "setup: coq build incomplete (checks report per property)"
 tools/prep_harness.sh || echo "setup: harness build incomplete (checks report per property)"
